@@ -217,6 +217,14 @@ func H19_draw() {
 			covered = c.ew == 2 && x < w-1
 		}
 	}
+	// an idle frame: a Show with nothing changed touches no page cell (also not the
+	// column a wide rune covers)
+	blk2 := p.blk
+	s.Show()
+	vsymAssert(p.oob == 0, "no draw call outside the page (idle frame)")
+	for i := range p.cells {
+		vsymAssert(p.cells[i].stamp <= blk2-1, "a Show with no change since the previous Show touches no cell")
+	}
 }
 
 // H19_mouse: mouse callbacks become events with the right button and modifiers, only for enabled modes.
